@@ -294,7 +294,7 @@ func manifestVariants(src []byte, visit func(desc string, doc []byte)) {
 	// one binding, declared where it is not used, reaching several sibling branches
 	// that use it, use it further down or re-declare it, in every order (xmlgen.ScopeForests)
 	maxLen, maxWrap := scopeForestBounds()
-	if _, err := xmlgen.ScopeForests(src, maxLen, maxWrap, os.Getenv("C19_SCOPE_UNDECLARE") != "", func(f xmlgen.ScopeForest) {
+	if _, err := xmlgen.ScopeForests(src, maxLen, maxWrap, os.Getenv("C19_SCOPE_UNDECLARE") != "0", func(f xmlgen.ScopeForest) {
 		visit("scope-forest: "+f.Desc, f.Doc)
 	}); err != nil {
 		fatal("scope forests: %v", err)
